@@ -8,7 +8,7 @@ from ..lean import MachineryError
 from ..model import W, cmd_argv, put_argv, world_from_state
 from ..runner import driver, jsonable, run_tasks, task_rng
 from ..sandbox import MODEL_ROOT as R
-from ..worldgen import make_entry, populate_trash, uid_dir
+from ..worldgen import DEEP_AREA, HOME_NAMES, make_entry, populate_trash, uid_dir
 
 LEVEL_NOTE = ("theorems: the restore core applied after the put core is the identity on the entry (every node, bytes, link "
               "targets, modes, mtimes) and on every other path except the mtimes of the directories whose entry lists "
@@ -18,7 +18,7 @@ LEVEL_NOTE = ("theorems: the restore core applied after the put core is the iden
 RULE = ("pipelines put -> [noise: another put, a list] -> restore: names from byte classes (space, newline, CR, %, +, #, ?, "
         "=, [, leading -, .trashinfo suffix, multi-byte UTF-8, 255-byte names, invalid UTF-8; thorough: every single byte "
         "1-255 except '/' alone and inside a name) x kinds (file, empty, tree, 4 symlink kinds) x layouts (home, .Trash/uid, "
-        ".Trash-uid, --trash-dir) x sort (date, path, none) x restore from the original directory, an ancestor, '/', or by "
+        ".Trash-uid, --trash-dir; directories 7 levels deep in 240-byte non-ASCII names: 5 KB once escaped) x sort (date, path, none) x restore from the original directory, an ancestor, '/', or by "
         "path argument; oracle: canonical snapshot of the original subtree after restore = before put; the trash slot is gone")
 CLASS_NAMES = [b"a b", b"new\nline", b"cr\rx", b"per%cent", b"plus+", b"#hash", b"q?", b"eq=", b"[br]", b"-dash", b"x.trashinfo",
                b"caf\xc3\xa9", b"\xe2\x82\xac", b"n" * 255, b"\xff\xfe", b"\xc3", b"tab\t", b"'quote", b"back\\slash", b"*", b"~",
@@ -31,15 +31,15 @@ def pipeline(task):
     name = task.get("name") or rng.choice(CLASS_NAMES)
     w = W()
     uid = rng.choice([0, 1000])
-    home = w.dir(R + b"/home/u")
+    home = w.dir(R + b"/home/" + rng.choice([n for n in HOME_NAMES if n != b"info"]))
     layout = rng.choice(["home", "top", "alt", "custom"])
     env = {"HOME": home}
     opts = {}
     if layout == "home":
-        d = home + rng.choice([b"/docs", b"/docs/deep/er"])
+        d = home + rng.choice([b"/docs", b"/docs/deep/er", b"/docs", DEEP_AREA])
     else:
         w.mount(R + b"/vol1")
-        d = R + b"/vol1" + rng.choice([b"/stuff", b"/a/b/c"])
+        d = R + b"/vol1" + rng.choice([b"/stuff", b"/a/b/c", b"/stuff", DEEP_AREA])
         if layout == "top":
             w.dir(R + b"/vol1/.Trash", 0o1777)
         if layout == "custom":
